@@ -328,6 +328,8 @@ def check(repo, rep, tier):
     cm = repo.module('depccg/cat.py')
     c13.r_dataclass(cm, rep, 'R17.3')
     c13.r_eq(cm, rep, 'R17.3')
+    from .c18 import r_token_accessors
+    r_token_accessors(repo, rep, 'R17.2', 'a value kept from the first read of token.word hides a later change of the word from the dictionary lookup')
     n = r_data(repo, rep)
     rep.floor('category strings checked', n, 24000)
     r_loading(repo, rep)
